@@ -143,7 +143,7 @@ def check_projection_rhs(ctx, lib, stop):
             elif not names and res and all(x[0] == "agg" and x[1] == "std::result::Result::Ok" and x[2][0] and
                                            all(y[0] == "agg" and y[1] == AST + "::Identity" for y in x[2][0]) for x in res):
                 outs.add("identity")
-            elif names == ["err"] and res and all(x[0] == "agg" and x[1] == "std::result::Result::Err" for x in res):
+            elif set(names) <= {"err"} and res and all(x[0] == "agg" and x[1] == "std::result::Result::Err" for x in res):
                 outs.add("error")
             else:
                 outs.add("?" + ",".join(names) + ":" + fmt_terms(res)[:60])
